@@ -261,6 +261,11 @@ pub async fn create_archive<R: AsyncRead + Unpin + Send, W: AsyncWrite + Unpin>(
         .await
         .map_err(CreateArchiveError::OutputWriteError)?;
 
+    // Wait for the last write to the temp file and report any error from it.
+    temp_file
+        .flush()
+        .await
+        .map_err(CreateArchiveError::TempFileError)?;
     temp_file
         .rewind()
         .await
